@@ -23,6 +23,7 @@ EXTENDS Naturals, Integers, Sequences, FiniteSets, TLC, SequencesExt, FiniteSets
 
 CONSTANTS NV,            \* development versions are 1..NV (in cascade order)
           StabV,         \* versions that also have a stabilization branch
+          HasHf,         \* TRUE: there is also one hotfix branch (a destination on its own, with its own queue)
           NP,            \* number of user pull requests
           UseQueue,      \* settings.use_queue
           SkipQueue,     \* settings.skip_queue_when_not_needed
@@ -65,13 +66,15 @@ BranchOf(n) == <<n[3], n[4]>>
 RECURSIVE CascFrom(_)
 CascFrom(v) == IF v > NV THEN <<>>
                ELSE (IF v \in StabV THEN <<Stab(v)>> ELSE <<>>) \o <<Dev(v)>> \o CascFrom(v + 1)
-Casc == CascFrom(1)                         \* all destination branches, in inclusion order
-Branches == {Casc[j] : j \in DOMAIN Casc}
+Casc == CascFrom(1)                         \* development / stabilization branches, in inclusion order
+Hf == <<"hf", 0>>
+Branches == {Casc[j] : j \in DOMAIN Casc} \cup (IF HasHf THEN {Hf} ELSE {})
 RECURSIVE DevsFrom(_)
 DevsFrom(v) == IF v > NV THEN <<>> ELSE <<Dev(v)>> \o DevsFrom(v + 1)
-Targets(b) == IF b[1] = "stab" THEN <<b>> \o DevsFrom(b[2]) ELSE DevsFrom(b[2])
+Targets(b) == IF b[1] = "hf" THEN <<b>>          \* a hotfix destination alone
+              ELSE IF b[1] = "stab" THEN <<b>> \o DevsFrom(b[2]) ELSE DevsFrom(b[2])
 MergePaths == {DevsFrom(1)} \cup {Targets(Stab(v)) : v \in StabV}
-Pos(b) == CHOOSE j \in DOMAIN Casc : Casc[j] = b
+Pos(b) == IF b = Hf THEN 0 ELSE CHOOSE j \in DOMAIN Casc : Casc[j] = b     \* the hotfix queue sorts first
 
 Set(f, k, v) == (k :> v) @@ f
 Del(f, K) == [x \in DOMAIN f \ K |-> f[x]]
@@ -161,7 +164,7 @@ QueuesCoherent(g, r) ==
                /\ Leq(g, r[BN(b)], L[Len(L)].c)
 
 \* order of the versions of a queue dict: cascade order (compare_queues: stab before its dev)
-KeysInOrder(q) == SelectSeq(Casc, LAMBDA b : b \in DOMAIN q)
+KeysInOrder(q) == (IF Hf \in DOMAIN q THEN <<Hf>> ELSE <<>>) \o SelectSeq(Casc, LAMBDA b : b \in DOMAIN q)
 RevSeq(s) == [j \in 1..Len(s) |-> s[Len(s) + 1 - j]]
 RECURSIVE Uniq(_)
 Uniq(s) == IF s = <<>> THEN <<>>
@@ -170,9 +173,11 @@ Uniq(s) == IF s = <<>> THEN <<>>
 \* _extract_pr_ids: PR ids of the greatest development queue, oldest first
 ExtractPrs(q) ==
   LET devs == SelectSeq(KeysInOrder(q), LAMBDA b : b[1] = "dev")
-  IN IF devs = <<>> THEN <<>>
-     ELSE LET L == q[devs[Len(devs)]]
-          IN Uniq(RevSeq([j \in DOMAIN L |-> L[j].p]))
+      hfp == IF Hf \in DOMAIN q THEN Uniq(RevSeq([j \in DOMAIN q[Hf] |-> q[Hf][j].p])) ELSE <<>>
+      main == IF devs = <<>> THEN <<>>
+              ELSE LET L == q[devs[Len(devs)]]
+                   IN Uniq(RevSeq([j \in DOMAIN L |-> L[j].p]))
+  IN hfp \o SelectSeq(main, LAMBDA p : ~ \E j \in DOMAIN hfp : hfp[j] = p)
 \* pop the integration queues of one version up to and including PR f
 RECURSIVE PopTo(_, _)
 PopTo(L, f) == IF L = <<>> THEN <<>> ELSE IF L[1].p = f THEN Tail(L) ELSE PopTo(Tail(L), f)
@@ -190,7 +195,7 @@ RECURSIVE DropWhileNotIn(_, _)
 DropWhileNotIn(L, P) == IF L = <<>> THEN <<>>
                         ELSE IF L[1].p \in P THEN L ELSE DropWhileNotIn(Tail(L), P)
 RestrictQ(q, prs) == [b \in DOMAIN q |-> DropWhileNotIn(q[b], {prs[j] : j \in DOMAIN prs})]
-OnPath(q, path) == [b \in {x \in DOMAIN q : \E j \in DOMAIN path : path[j] = x} |-> q[b]]
+OnPath(q, path) == [b \in {x \in DOMAIN q : x = Hf \/ \E j \in DOMAIN path : path[j] = x} |-> q[b]]
 PathSeq == SetToSortSeq(MergePaths, LAMBDA x, y : Len(x) > Len(y) \/ (Len(x) = Len(y) /\ x[1][2] < y[1][2]))
 \* one pass of _process over all merge paths: keep the shortest per-path answer
 RECURSIVE ProcessPass(_, _, _)
@@ -209,17 +214,18 @@ SelectImpl(q, force) ==
 
 (* The property's own definition (C05): longest prefix, in order of entry, such that for every  *)
 (* version the newest selected PR that has a commit there is SUCCESSFUL.                         *)
-EntryOrder(q) == ExtractPrs(q)
-GoodPrefix(q, order, k) ==
-  \A b \in DOMAIN q :
+IsHfPr(q, p) == Hf \in DOMAIN q /\ \E j \in DOMAIN q[Hf] : q[Hf][j].p = p
+MainOrder(q) == SelectSeq(ExtractPrs(q), LAMBDA p : ~ IsHfPr(q, p))
+HfOrder(q) == SelectSeq(ExtractPrs(q), LAMBDA p : IsHfPr(q, p))
+GoodPrefix(q, order, k, Vs) ==
+  \A b \in Vs :
     LET sel == {order[j] : j \in 1..k}
         L == SelectSeq(q[b], LAMBDA e : e.p \in sel)       \* newest first
     IN L # <<>> => Status(L[1].c) = "SUCCESSFUL"
+LongestGood(q, order, Vs) == SubSeq(order, 1, Max({k \in 0..Len(order) : GoodPrefix(q, order, k, Vs)}))
 SelectSpec(q, force) ==
-  LET order == EntryOrder(q)
-  IN IF force THEN order
-     ELSE LET K == {k \in 0..Len(order) : GoodPrefix(q, order, k)}
-          IN SubSeq(order, 1, Max(K))
+  IF force THEN ExtractPrs(q)
+  ELSE LongestGood(q, HfOrder(q), DOMAIN q \cap {Hf}) \o LongestGood(q, MainOrder(q), DOMAIN q \ {Hf})
 
 (***************************************************************************)
 (* handle_merge_queues (queueing.py) - plan of a queue evaluation          *)
@@ -242,7 +248,7 @@ EvalQueuesPlan(g, r, force) ==
            selS == {sel[j] : j \in DOMAIN sel}
            \* merge_queues: fast-forward each destination to its newest mergeable queue commit
            loc1 == [n \in DOMAIN r |->
-                      IF Kind(n) \in {"dev", "stab"} /\ BranchOf(n) \in DOMAIN mq /\ mq[BranchOf(n)] # <<>>
+                      IF Kind(n) \in {"dev", "stab", "hf"} /\ BranchOf(n) \in DOMAIN mq /\ mq[BranchOf(n)] # <<>>
                       THEN mq[BranchOf(n)][1].c ELSE r[n]]
            goneq == {n \in DOMAIN r : Kind(n) = "qw" /\ BranchOf(n) \in DOMAIN mq /\
                                        \E j \in DOMAIN mq[BranchOf(n)] : mq[BranchOf(n)][j].p = n[2]}
@@ -399,12 +405,13 @@ ForceMergePlan(g, r) ==
 (***************************************************************************)
 (* Initial state                                                           *)
 (***************************************************************************)
-G0 == [n |-> Len(Casc) + 1,
-       anc |-> [c \in 1..(Len(Casc) + 1) |-> 1..c],
-       lab |-> [c \in 1..(Len(Casc) + 1) |-> "base"]]
+NBase == Len(Casc) + 1 + (IF HasHf THEN 1 ELSE 0)
+G0 == [n |-> NBase,
+       anc |-> [c \in 1..NBase |-> IF HasHf /\ c = NBase THEN {1, c} ELSE 1..c],
+       lab |-> [c \in 1..NBase |-> "base"]]
 Init ==
   /\ G = G0
-  /\ refs = [n \in {BN(Casc[j]) : j \in DOMAIN Casc} |-> Pos(BranchOf(n)) + 1]
+  /\ refs = [n \in {BN(b) : b \in Branches} |-> IF BranchOf(n) = Hf THEN NBase ELSE Pos(BranchOf(n)) + 1]
   /\ pr = [p \in 1..NP |-> [st |-> "none", dst |-> Dev(1), appr |-> FALSE, byp |-> FALSE,
                             wait |-> FALSE, nooct |-> FALSE]]
   /\ child = {}
@@ -672,6 +679,11 @@ C12_Held == [][\A p \in 1..NP : (pr[p].wait /\ pr'[p].wait /\ pr[p].st = "open")
                  /\ {n \in DOMAIN refs' : Kind(n) \in {"w", "qw"} /\ n[2] = p} \subseteq {n \in DOMAIN refs : Kind(n) \in {"w", "qw"} /\ n[2] = p}
                  /\ \A n \in DestNames : DestMoved(n) =>
                        (SrcN(p) \in DOMAIN refs => (Leq(G', refs[SrcN(p)], refs'[n]) => Leq(G, refs[SrcN(p)], refs[n])))]_vars
+\* a queue entry leaves the queue only by being merged into its destination, or by a queue reset job
+JobKindNow == IF Atomic THEN (IF last'[1] = "job" THEN last'[2] ELSE "") ELSE job.kind
+C20_EntryFate == [][~ Faults => \A n \in DOMAIN refs : (Kind(n) = "qw" /\ n \notin DOMAIN refs') =>
+                      \/ JobKindNow \in {"RebuildQueues", "DeleteQueues"}
+                      \/ BN(BranchOf(n)) \in DOMAIN refs' /\ Leq(G', refs[n], refs'[BN(BranchOf(n))])]_vars
 C19_Children == \A x \in child : pr[x[1]].st # "none" /\ \E j \in 2..Len(Targets(pr[x[1]].dst)) : Targets(pr[x[1]].dst)[j] = x[2]
-TypeOK == G.n >= Len(Casc) + 1
+TypeOK == G.n >= NBase
 =============================================================================
